@@ -56,7 +56,7 @@ abbrev Call := List Use
 inductive PC
   | start
   | chk | lock | list | next | get | eval | isev | rdval | wrA | wrB | wrcA | wrcArg | wrcB | pop
-  | fldTyQ | fldTy | rftIsev | rftRdval | fldOtyQ | addn | clr1 | clr2 | popd | unlock
+  | fldTyQ | fldTy | rftIsev | rftRdval | rrfA | rrfB | rrfC | fldOtyQ | addn | clr1 | clr2 | popd | unlock
   | frfPos | frfRet
   | pv | tcIsev | tcRdval | nested | nestedPv | nestedErr | pvErr
   | fin | stuck
@@ -79,6 +79,8 @@ def PC.label : PC → String
   | .fldTy => "fld:ty"         -- self.type, r = resolve_forward_type(self.type)
   | .rftIsev => "rft:isev"     -- if t.__forward_evaluated__:
   | .rftRdval => "rft:rdval"   -- return t.__forward_value__, True
+  | .rrfA => "rrf:args?"       -- Rule.resolve_forward_refs of an already rewritten type: if not cls.__args__:
+  | .rrfB | .rrfC => "rrf:zip" --   for arg, trans in zip(cls.__args__, cls.__arg_transformers__):  [2 line events]
   | .fldOtyQ => "fld:oty?"     -- if self.output_type:
   | .addn => "rfr:addn"        -- self.addition_type, r = resolve_forward_type(self.addition_type)
   | .clr1 => "rfr:clr1"        -- ref.__forward_evaluated__ = False
@@ -198,7 +200,7 @@ def afterType (W : World) (t : Th) (u : Use) (v : Val) (deref : Bool) : Th :=
   else match v with
     | .parsed => { t with pc := .nested }
     | .raw => if W.rawOk u.fld then { t with pc := .nested } else { t with pc := .pvErr }
-    | .none => if deref then { t with pc := .stuck } else nextUse { t with wrongF := true }
+    | .none => if deref then { t with pc := .pvErr } else nextUse { t with wrongF := true }
     | .junk => { t with pc := .pvErr }
 
 /-- One atomic step of thread `tid`.  `lg = true`: the code before the fix. -/
@@ -240,13 +242,18 @@ def stepTh (W : World) (lg : Bool) (tid : Nat) (g : G) (t : Th) : G × Th :=
     match g.fty t.fi with
     | .ref => (g, { t with pc := .rftIsev })
     | .res v =>
-      -- a Rule with arguments / a const rule is a LogicalType: its own resolve_forward_refs is not modelled
-      if (v = .parsed && W.ref t.fi && !W.rawOk t.fi) || v = .junk then (g, { t with pc := .stuck })
+      -- a Rule with arguments (`List[B]` once parsed) is a LogicalType: its own resolve_forward_refs runs
+      -- (nothing left to resolve in it); the `const None` rule of the pre-fix race is not modelled
+      if v = .junk then (g, { t with pc := .stuck })
+      else if v = .parsed && W.ref t.fi && !W.rawOk t.fi then (g, { t with pc := .rrfA })
       else (g, { t with pc := .fldOtyQ })
   | .rftIsev =>
     if g.ev t.fi then (g, { t with pc := .rftRdval })
     else ({ g with fty := upd g.fty t.fi .ref }, { t with pc := .fldOtyQ })
   | .rftRdval => ({ g with fty := upd g.fty t.fi (.res (g.val t.fi)) }, { t with pc := .fldOtyQ })
+  | .rrfA => (g, { t with pc := .rrfB })
+  | .rrfB => (g, { t with pc := .rrfC })
+  | .rrfC => (g, { t with pc := .fldOtyQ })
   | .fldOtyQ => (g, fieldAdvance W { t with fi := t.fi + 1 })
   | .addn => (g, enterClear W lg t)
   | .clr1 => ({ g with ev := upd g.ev t.cur false }, { t with pc := .clr2 })
